@@ -11,6 +11,7 @@ Reasons of the nogood propagator are accepted iff they are entailed by the model
 import Pumpkin.Spec.Basic
 import Pumpkin.Check.Oracle
 import Pumpkin.Model.ImplicitReason
+import Pumpkin.Model.PropagationCompile
 
 namespace Pumpkin.C17
 
@@ -79,5 +80,40 @@ example : checkInference [[0, 1, 2, 3], [0, 1, 2, 3]] (Cons.linLe [⟨1, 0, 0⟩
     [Atom.ge 0 2] (some (Atom.le 1 1)) = true := by decide
 example : checkInference [[0, 1, 2, 3], [0, 1, 2, 3]] (Cons.linLe [⟨1, 0, 0⟩, ⟨1, 0, 1⟩] 3)
     [Atom.ge 0 2] (some (Atom.le 1 0)) = false := by decide
+
+
+/-! ### the propagator models (`Model/Propagation.lean`, tied to the code by the `fix` records)
+
+For **every** domain state, view and constant — no bound on sizes, signs or holes: -/
+
+/-- A pass of any modelled propagator (LinearLeq, LinearNe, IntAbs, Maximum, IntTimes, Division,
+Element, the clause unit rule, the reified wrapper around any of them) never removes a value used by
+a solution of its constraint within the current domains … -/
+theorem propagation_never_prunes (n : Nat) (p : Pg.PropInst) (hw : p.Wf n) (d d' : Pg.Doms) (hl : d.length = n)
+    (hp : p.pass d = some d') (a : List Int) (hin : inDoms d a = true) (hsat : p.cons.sat a = true) :
+    inDoms d' a = true := by
+  obtain ⟨d'', e, h', _⟩ := Pg.pass_ok p hw d hin hl hsat
+  rw [hp] at e; cases e; exact h'
+
+/-- … and signals a conflict only if its constraint has no solution within the current domains. -/
+theorem propagation_conflict_sound (n : Nat) (p : Pg.PropInst) (hw : p.Wf n) (d : Pg.Doms) (hl : d.length = n)
+    (hp : p.pass d = none) (a : List Int) (hin : inDoms d a = true) : p.cons.sat a = false := by
+  cases hs : p.cons.sat a with
+  | false => rfl
+  | true =>
+    obtain ⟨d'', e, _, _⟩ := Pg.pass_ok p hw d hin hl hs
+    rw [hp] at e; cases e
+
+/-- The same for the fixpoint of any set of propagators (one decision point to the next). -/
+theorem fixpoint_never_prunes (n : Nat) (ps : List Pg.PropInst) (hw : ∀ p ∈ ps, p.Wf n) (d d' : Pg.Doms)
+    (hl : d.length = n) (hf : Pg.fixpoint ps d = some d') (a : List Int) (hin : inDoms d a = true)
+    (hsat : ∀ p ∈ ps, p.cons.sat a = true) : inDoms d' a = true :=
+  Pg.fixpoint_keeps_solutions ps hw d d' hl hf a hin hsat
+
+-- the hypotheses are satisfiable and the passes do something: x0 + x1 ≤ 3 with x0 ≥ 2 narrows x1
+example : (Pg.PropInst.linLe [⟨1, 0, 0⟩, ⟨1, 0, 1⟩] 3).pass [[2, 3], [0, 1, 2, 3]] = some [[2, 3], [0, 1]] := by decide
+example : (Pg.PropInst.div ⟨1, 0, 0⟩ ⟨1, 0, 1⟩ ⟨1, 0, 2⟩).pass [[7, 8, 9], [2, 3], [0, 1, 2, 3, 4, 5]]
+    = some [[7, 8, 9], [2, 3], [2, 3, 4]] := by decide
+example : (Pg.PropInst.times ⟨1, 0, 0⟩ ⟨1, 0, 1⟩ ⟨1, 0, 2⟩).pass [[2], [3], [5]] = none := by decide
 
 end Pumpkin.C17
